@@ -9,5 +9,6 @@ import (
 func TestMain(m *testing.M) {
 	vh.Main(map[string]vh.CheckFunc{
 		"C17sio": C17sio,
+		"C14sio": C14sio,
 	})
 }
